@@ -8,7 +8,8 @@ NEEDS = {}  # filled from existing meta.json if present
 def run(cmd, **kw):
     return subprocess.run(cmd, shell=True, capture_output=True, text=True, **kw)
 
-names = sys.argv[1:] or sorted(os.listdir('/verif/seeded'))
+ALT = '--alt' in sys.argv   # run against a scratch copy (/tmp/altrepo) instead of applying to /repo
+names = [a for a in sys.argv[1:] if a != '--alt'] or sorted(os.listdir('/verif/seeded'))
 for name in names:
     d = f'/verif/seeded/{name}'
     patch = f'{d}/patch.diff'
@@ -17,17 +18,27 @@ for name in names:
     prop = re.match(r'(C\d+)', name).group(1)
     meta_path = f'{d}/meta.json'
     meta = json.load(open(meta_path)) if os.path.exists(meta_path) else {}
-    assert run('git -C /repo diff --quiet').returncode == 0, "/repo dirty"
-    a = run(f'git -C /repo apply {patch}')
-    if a.returncode != 0:
-        print(name, 'PATCH DOES NOT APPLY', a.stderr[:200]); run('git -C /repo reset -q --hard HEAD'); continue
+    if ALT:
+        run('git -C /repo worktree remove --force /tmp/altrepo')
+        assert run('git -C /repo worktree add -q --detach /tmp/altrepo HEAD').returncode == 0
+        a = run(f'git -C /tmp/altrepo apply {patch}')
+        if a.returncode != 0:
+            print(name, 'PATCH DOES NOT APPLY', a.stderr[:200]); run('git -C /repo worktree remove --force /tmp/altrepo'); continue
+    else:
+        assert run('git -C /repo diff --quiet').returncode == 0, "/repo dirty"
+        a = run(f'git -C /repo apply {patch}')
+        if a.returncode != 0:
+            print(name, 'PATCH DOES NOT APPLY', a.stderr[:200]); run('git -C /repo reset -q --hard HEAD'); continue
     checks = meta.get('run_checks', [prop])
     results = {}
     for c in checks:
-        r = run(f'cd /verif && ./check {c} quick')
+        r = run(f'cd /verif && {"VERIF_REPO=/tmp/altrepo " if ALT else ""}./check {c} quick')
         sigs = re.findall(r'^\s+sig: (.*)$', r.stdout, re.M)
         results[c] = {"exit": r.returncode, "violation_signatures": sigs[:6]}
-    run('git -C /repo reset -q --hard HEAD')
+    if ALT:
+        run('git -C /repo worktree remove --force /tmp/altrepo')
+    else:
+        run('git -C /repo reset -q --hard HEAD')
     meta.update({
         "property": prop,
         "patch": "patch.diff",
